@@ -204,7 +204,7 @@ func init() {
 	register(&Rule{ID: "GRAM.lex", Floor: 28,
 		Doc: "the lexeme table and the token-type table agree pairwise with the language (closed loop: lexeme → token type → evaluator handler → variant operation → operator symbol quoted in that operation's own error message)",
 		Run: ruleGramLex})
-	register(&Rule{ID: "GRAM.emptycase", Floor: 1,
+	register(&Rule{ID: "GRAM.emptycase", Floor: 40,
 		Doc: "no empty case clause is followed by a non-empty one in a switch over token or variant types (Go has no implicit fall-through: the empty clause silently does nothing)",
 		Run: ruleGramEmptyCase})
 }
@@ -700,6 +700,8 @@ func ruleGramEmptyCase(c *Ctx) []*Obligation {
 					return true
 				}
 				clauses := sw.Body.List
+				swKey := fmt.Sprintf("%s.%s#switch(%s)", rel, curFunc, types.ExprString(sw.Tag))
+				nSus := 0
 				for i, st := range clauses {
 					cc := st.(*ast.CaseClause)
 					if cc.List == nil || len(cc.Body) != 0 {
@@ -709,26 +711,14 @@ func ruleGramEmptyCase(c *Ctx) []*Obligation {
 					for _, e := range cc.List {
 						labels = append(labels, types.ExprString(e))
 					}
-					key := fmt.Sprintf("%s.%s#switch(%s)#case#%s", rel, curFunc, types.ExprString(sw.Tag), strings.Join(labels, ","))
-					// empty clause followed (anywhere later) by a non-empty clause and not the last
-					followedByBody := false
-					for _, st2 := range clauses[i+1:] {
-						c2 := st2.(*ast.CaseClause)
-						if len(c2.Body) > 0 && c2.List != nil {
-							followedByBody = true
-							break
-						}
-						if len(c2.Body) > 0 {
-							break
-						}
-					}
-					// an empty clause whose successors up to the next body are also case clauses looks like a C-style fall-through group
 					next := i+1 < len(clauses) && clauses[i+1].(*ast.CaseClause).List != nil
-					if followedByBody && next && c.emptyCaseIsSuspicious(clauses, i) {
-						o.bad(key, c.Pos(cc.Pos()), "empty case "+strings.Join(labels, ",")+" directly precedes a case with a body: Go does not fall through, so this type silently skips the handling written below it")
-					} else {
-						o.ok(key, c.Pos(cc.Pos()), "empty case is deliberate (followed only by empty cases / default, or documented break group)")
+					if next && c.emptyCaseIsSuspicious(clauses, i) {
+						nSus++
+						o.bad(swKey+"#case#"+strings.Join(labels, ","), c.Pos(cc.Pos()), "empty case "+strings.Join(labels, ",")+" directly precedes a case with a body: Go does not fall through, so this type silently skips the handling written below it")
 					}
+				}
+				if nSus == 0 {
+					o.ok(swKey, c.Pos(sw.Pos()), fmt.Sprintf("%d clauses, none is an empty clause in front of a clause with a body", len(clauses)))
 				}
 				return true
 			})
